@@ -164,6 +164,8 @@ impl<'a> Reporter<'a> {
 
     /// Report this test event to the given writer.
     fn write_event(&mut self, event: TestEvent<'a>) -> Result<(), WriteEventError> {
+        #[cfg(nextest_verif)]
+        super::verif_tap::record(&event)?;
         // TODO: write to all of these even if one of them fails?
         self.display_reporter.write_event(&event)?;
         self.structured_reporter.write_event(&event)?;
